@@ -15,8 +15,11 @@ Record obs := mk_obs {
 (** an injected fault: the pipeline stage at which it is detected
       0 before any file is read (no command, configuration, plugin, no schema)   1 schema parse   2 operation parse
       3 schema resolve   4 schema check   5 schema check by plugins   6 operation extensions   7 operation imports
-      8 operation check   9 generate options / printers   10 command sequence (unknown command, check after another)
-    and the files one of which a diagnostic has to name ([] = not attached to a file) *)
+      8 operation check   9 generate: options (schemaOutput required, runtime into a .d.ts)   10 generate: printers
+      11 generate: writing (no file name for the source map)   12 command sequence (unknown command, check after another)
+    — the order in which run_cli_impl / check_impl / run_generate meet them (Model.generate_body tests the two options
+    before any printer runs, prints before it writes) — and the files one of which a diagnostic has to name
+    ([] = a fault that is not attached to a file: configuration, options, output paths) *)
 Record fault := mk_fault { ft_stage : N; ft_files : list str }.
 
 Record spec := mk_spec {
@@ -189,7 +192,10 @@ Definition located_ok (faults : list fault) (commands : list str) (named : str -
     | Some m =>
         let at_m := filter (fun f => N.eqb (ft_stage f) m) ff in
         let reached := (m <=? 2) || match commands with c :: _ => str_eqb c CHECK || str_eqb c GENERATE | [] => false end in
-        if negb reached then true
+        (* `generate` stops at the first error it meets: a fault of an earlier generate sub-stage that has no file
+           (an option error) is what gets reported, and the located fault behind it is never produced *)
+        let preempted := existsb (fun f => is_nil (ft_files f) && (9 <=? ft_stage f) && (ft_stage f <? m)) faults in
+        if negb reached || preempted then true
         else if N.eqb m 1 || N.eqb m 3 then existsb (fun f => existsb named (ft_files f)) at_m
         else forallb (fun f => existsb named (ft_files f)) at_m
     end.
